@@ -127,6 +127,14 @@ def counter(ctx, rule='C01.counter'):
                     inv = _negated(fn, du, at['discr'])
                     if (on_zero and not inv) or (not on_zero and inv):
                         guarded = True
+                if not guarded:
+                    # the flag may be tested through a value built from it (`found = if exists { Some(..) } else { None }; match found { .. }`)
+                    from util import derived_flag_switches
+                    for a, m in derived_flag_switches(fn, du, flag_locals).items():
+                        falses = [x for x, fv in m.items() if fv is False]
+                        trues = [x for x, fv in m.items() if fv is True]
+                        if falses and trues and any(bb in fn.reach_from([x], avoid={a}) for x in falses) and not any(bb in fn.reach_from([x], avoid={a}) for x in trues):
+                            guarded = True
                 if guarded:
                     res.append(ok(rule, 'counter bumped at %s only on the not-found arm of the search' % fn.loc(bb, si), sites=1))
                 else:
